@@ -203,6 +203,23 @@ def process(ctx: Ctx, cases: list[dict]) -> None:
                 reset_globals()
                 sd_off = DictReader.read(td / c["root"], includes=False)
                 isd_off = c01.sd_json(sd_off)
+                # the same process reads the graph again after an included file was replaced by other content of the same
+                # length with its time stamps restored (cp -p, rsync -t, unzip): the new content counts
+                second = None
+                if len(order) >= 2 and ci % 3 == 0:
+                    import os
+                    victim = order[1 + ci % (len(order) - 1)]
+                    tag = "F" + str(list(c["files"]).index(victim))
+                    text_v = c["files"][victim].replace(ABS, str(td))
+                    if tag in text_v:
+                        st = os.stat(td / victim)
+                        (td / victim).write_text(text_v.replace(tag, "G" + tag[1:]))
+                        os.utime(td / victim, ns=(st.st_atime_ns, st.st_mtime_ns))
+                        reset_globals()
+                        got2 = spec.strip_placeholders(impl.plain(DictReader.read(td / c["root"])))
+                        c2 = _json.loads(_json.dumps({"bodies": c["bodies"], "root": c["root"]}))
+                        c2["bodies"][victim] = _json.loads(_json.dumps(c["bodies"][victim]).replace(tag, "G" + tag[1:]))
+                        second = (got2, reference(c2)[0], victim)
         except RecursionError as e:
             ctx.violation("reading does not terminate normally (RecursionError)", c, repr(e), "result"); continue
         except Exception as e:  # noqa: BLE001
@@ -216,6 +233,12 @@ def process(ctx: Ctx, cases: list[dict]) -> None:
         elif [k for k in got_cmp] != [k for k in spec.norm(exp)]:
             ctx.violation("key order is not 'including file first, then includes in order'", {"files": c["files"], "root": c["root"]}, list(got_cmp), list(exp),
                           replay={k: v for k, v in c.items() if not k.startswith("_")})
+        if second is not None:
+            got2, exp2, victim = second
+            g2 = {k: ("<selfref>" if isinstance(v, str) and v == f"${k}" else v) for k, v in got2.items()}
+            if spec.unordered(g2) != spec.unordered(spec.norm(exp2)):
+                ctx.violation("a second read in the same process does not see the new content of an included file (same size, same time stamps)",
+                              {"files": c["files"], "root": c["root"], "replaced": victim}, enc(g2), enc(spec.norm(exp2)))
         off = impl.plain(sd_off)
         root_body = {k: (f"${k}" if v == "<selfref>" else v) for k, v in c["bodies"][c["root"]]["body"].items()}
         if any(isinstance(k, str) and "INCLUDE" in k for k in off):
